@@ -66,6 +66,10 @@ SCENARIOS = {
     'return': dict(
         src='<dtml-try><dtml-in seq><dtml-if expr="x == 2"><dtml-try><dtml-return expr="(a, o.p, x + a)"><dtml-finally>'
             '<dtml-var a></dtml-try></dtml-if></dtml-in><dtml-finally><dtml-call "seq.append(a)"><dtml-var w></dtml-try>'),
+    # the client object of the call: reached by name and as _.this
+    'client': dict(
+        src='<dtml-var p>/<dtml-var expr="_.this.p"><dtml-in seq><dtml-var expr="_.this.p + _.str(x)"></dtml-in>'
+            '<dtml-with o><dtml-var expr="_.this.p">:<dtml-var p></dtml-with>', client=True),
     'epfs': dict(
         src='%(in seq sort_expr="key")[%(x)s,%(in)]%(if a)[A%(else)[B%(if)]%(a)05d', epfs=True),
 }
@@ -110,6 +114,13 @@ class Setup:
         ns = namespace(self.name, i)
         if self.sub is not None:
             ns['sub'] = self.sub
+
+        if SCENARIOS[self.name].get('client'):
+            client = O(p='client%d' % i, q=i)
+
+            def run():
+                return self.t(client, **ns)
+            return run
 
         def run():
             return self.t(**ns)
